@@ -231,6 +231,9 @@ def run(pid, tier, seed):
     d = outdir(pid)
     binp = build_harness(d)
     parts = [("batch", collect(pid, tier, seed, d, binp))]
+    if pid == "C11":
+        import fam_engine
+        parts.append(("engine", fam_engine.collect(pid, tier, seed, d, binp)))   # batch nodes as steps of a (looping) flow
     if pid == "C08":
         import fam_pool
         parts.append(("pool", fam_pool.collect(pid, tier, seed, d)))   # the worker pool's own bound
